@@ -165,8 +165,126 @@ Fixpoint obs_run (s : st) (evs : list event) : list sx :=
   end.
 End Obs.
 
+
+(* ---------------- the large-scale stream (kind 7) ----------------
+   case ( 7 q r a cycles ((m o len) ...) ): a canonical chain 0..H with H = F + a and the
+   finalized block F = q*L + r - 1, where L is the batch limit, so that the first cycle is
+   capped by the limit whenever r >= 1; side branches of [len] blocks fork off the canonical
+   block m*L + o.  The implementation runs it with the real limit L = 30000; the model —
+   parametric in the limit, the theorems hold for every limit — runs the same scenario with
+   L = 64 and both sides report a summary in which every block number is written relative
+   to L:  per cycle ( class frozen/L frozen%L (window ...) (side ...) ), window entries
+   ( header-in-KV  in-freezer  all-accessors-as-before ) for the numbers m*L+o (m <= q,
+   |o| <= 2), F-1..F+2, H-1, H; side entries ( header body receipts number ) in the KV. *)
+Definition big_L : N := 64.
+
+Definition be4 (n : N) : blob :=
+  [ (n / 16777216) mod 256; (n / 65536) mod 256; (n / 256) mod 256; n mod 256 ].
+
+Definition big_blk (num h par : N) (canon : bool) : blk :=
+  mkBlk num h (if canon then 1 else 0) (be4 h) (Some par) (1 :: be4 h) (2 :: be4 h) [] [].
+
+Definition canon_hash (n : N) : N := 1000 + n.
+
+Fixpoint big_canon (count : nat) (n : N) : list blk :=
+  match count with
+  | O => []
+  | S c => big_blk n (canon_hash n) (if n =? 0 then 0 else canon_hash (n - 1)) true
+           :: big_canon c (n + 1)
+  end.
+
+Fixpoint big_side (len : nat) (i : N) (j : N) (num par : N) : list blk :=
+  match len with
+  | O => []
+  | S l => let h := 2000000 + i * 1000 + j in
+           big_blk num h par false :: big_side l i (j + 1) (num + 1) h
+  end.
+
+Fixpoint big_sides (specs : list (N * Z * N)) (i : N) : list blk :=
+  match specs with
+  | [] => []
+  | (m, o, len) :: r =>
+      let p := Z.to_N (Z.of_N (m * big_L) + o) in
+      big_side (N.to_nat len) i 0 (p + 1) (canon_hash p) ++ big_sides r (i + 1)
+  end.
+
+Definition dec_side (s : sx) : option (N * Z * N) :=
+  match s with
+  | SL [m; SI o; l] => match sx_N m, sx_N l with
+                       | Some m', Some l' => Some (m', o, l')
+                       | _, _ => None
+                       end
+  | _ => None
+  end.
+
+Definition opt_N_eqb (a b : option N) : bool :=
+  match a, b with Some x, Some y => x =? y | None, None => true | _, _ => false end.
+
+Definition view_same (v w : view) : bool :=
+  (v_canon v =? v_canon w) && beqb (v_hdr v) (v_hdr w) && Bool.eqb (v_has_hdr v) (v_has_hdr w) &&
+  beqb (v_body v) (v_body w) && beqb (v_cbody v) (v_cbody w) && beqb (v_cbody_nil v) (v_cbody_nil w) &&
+  Bool.eqb (v_has_body v) (v_has_body w) &&
+  beqb (v_rcpt v) (v_rcpt w) && beqb (v_crcpt v) (v_crcpt w) && beqb (v_crcpt_nil v) (v_crcpt_nil w) &&
+  Bool.eqb (v_has_rcpt v) (v_has_rcpt w) && beqb (v_bal v) (v_bal w) &&
+  opt_N_eqb (v_num v) (v_num w) && opt_N_eqb (v_parent v) (v_parent w).
+
+Definition big_window (q f h : N) : list N :=
+  flat_map (fun m => if m =? 0 then [0; 1; 2]
+                     else [m * big_L - 2; m * big_L - 1; m * big_L; m * big_L + 1; m * big_L + 2])
+           (seqN 0 (N.to_nat (q + 1)))
+  ++ [f - 1; f; f + 1; f + 2; h - 1; h].
+
+Section Big.
+Variable bs : list blk.
+Variable s0 : st.
+Variables q f h : N.
+Let po := parent_i bs.
+
+Definition big_state (cls : N) (t : st) : sx :=
+  SL [ sn cls; sn (frozen (s_fz t) / big_L); sn (frozen (s_fz t) mod big_L);
+       SL (map (fun w =>
+                  let c := read_canonical_hash s0 w in
+                  SL [ sbool (kv_has (w, c) (k_hdr (s_kv t))); sbool (w <? frozen (s_fz t));
+                       sbool (view_same (view_of keccak_i po t c w) (view_of keccak_i po s0 c w)) ])
+               (big_window q f h));
+       SL (map (fun b : blk =>
+                  let key := (b_num b, b_hash b) in
+                  SL [ sbool (kv_has key (k_hdr (s_kv t))); sbool (kv_has key (k_body (s_kv t)));
+                       sbool (kv_has key (k_rcpt (s_kv t)));
+                       sbool (match get1 (b_hash b) (k_num (s_kv t)) with Some _ => true | None => false end) ])
+               (filter (fun b => negb (flag (b_flags b) 0)) bs)) ].
+
+Fixpoint big_cycles (n : nat) (t : st) : list sx :=
+  match n with
+  | O => []
+  | S n' =>
+      let cls := match fst (cycle po big_L t) with
+                 | Backoff c => if c <? 10 then 1 else 10
+                 | Froze true => 0
+                 | Froze false => 99
+                 end in
+      let t' := step po big_L t EvCycle in
+      big_state cls t' :: big_cycles n' t'
+  end.
+End Big.
+
+Definition big_run (q r a cycles : N) (specs : list (N * Z * N)) : sx :=
+  let f := q * big_L + r - 1 in
+  let h := f + a in
+  let bs := big_canon (N.to_nat (h + 1)) 0 ++ big_sides specs 0 in
+  let k := fold_left write_blk bs empty_kv in
+  let s0 := set_markers (canon_hash h) (canon_hash h) (canon_hash f) (mkSt k (mkFrz [] 0)) in
+  SL (big_cycles bs s0 q f h (N.to_nat cycles) s0).
+
 Definition C25_run (c : sx) : sx :=
   match c with
+  | SL [SI 7%Z; q; r; a; cyc; SL sides] =>
+      match sx_N q, sx_N r, sx_N a, sx_N cyc, opt_map dec_side sides with
+      | Some q', Some r', Some a', Some cyc', Some specs =>
+          if (1 <=? q') && (q' <=? 3) && (1 <=? q' * big_L + r') && (r' + a' <? 40) && (3 <=? a') && (cyc' <=? 6)
+          then big_run q' r' a' cyc' specs else SErr 2
+      | _, _, _, _, _ => SErr 1
+      end
   | SL [SL bsx; SL evx] =>
       match opt_map dec_blk bsx, opt_map dec_event evx with
       | Some bs, Some evs =>
